@@ -64,6 +64,12 @@ def _b_int(I, a, k):
             t = v.t
             return Sym(INT, z3.If(t >= 0, z3.ToInt(t), -z3.ToInt(-t)))
         if v.kind == STR:
+            from . import strparts
+            r = strparts.int_value(I, v)
+            if r == 'ValueError':
+                raise PyExc('ValueError', 'int of non-digit string')
+            if r is not strparts.NOTFOUND:
+                return r
             # int(s): defined for (optionally signed, space-padded) digit strings; we model plain digit strings
             if I.branch(L._ISDIG(v.t)):
                 n = L._SINT(v.t)
@@ -760,6 +766,29 @@ def str_method(I, s, name, args, kwargs):
         raise Unsupported('join on symbolic separator')
     if any(isinstance(a, Unknown) for a in args):
         return I.unknown('str method with unknown arg')
+    from . import strparts as SP
+    if name == 'startswith' and isinstance(args[0], str):
+        r = SP.startswith(s, args[0])
+        if r is not SP.NOTFOUND:
+            return r
+    if name == 'endswith' and isinstance(args[0], str):
+        r = SP.endswith(s, args[0])
+        if r is not SP.NOTFOUND:
+            return r
+    if name in ('find', 'index') and len(args) == 1 and isinstance(args[0], str):
+        r = SP.find(I, s, args[0])
+        if r is not SP.NOTFOUND:
+            if name == 'index' and isinstance(r, int) and r < 0:
+                raise PyExc('ValueError', 'substring not found')
+            return r
+    if name == 'split' and args and isinstance(args[0], str) and len(args) == 1 and not kwargs:
+        r = SP.split(I, s, args[0])
+        if r is not SP.NOTFOUND:
+            return r
+    if name in ('isnumeric', 'isdigit', 'isdecimal'):
+        r = SP.is_digits(s)
+        if r is not SP.NOTFOUND:
+            return r
     t = _S(I, s)
     if name == 'startswith':
         a = args[0]
@@ -787,6 +816,12 @@ def str_method(I, s, name, args, kwargs):
         if not isinstance(w, int) or not isinstance(fill, str):
             raise Unsupported('rjust with symbolic width/fill')
         if fill == '0':
+            if isinstance(s, Sym) and s.parts is not None and len(s.parts) == 1 and isinstance(s.parts[0], Digits):
+                d = s.parts[0]
+                if w <= d.width:
+                    return s
+                t2 = L.pad_int(I, d.n, w)
+                return Sym(STR, t2, parts=[Digits(d.n, w, t2)])
             return Sym(STR, L.pad_left_zero(I, t, w))
         ln = z3.Length(t)
         pad = z3.StringVal('')
